@@ -14,7 +14,9 @@ import ZODB.FileStorage  # noqa: F401
 import ZODB.DemoStorage
 import ZODB.MappingStorage
 
-from zverif import battery as B
+F = sys.modules['ZODB.FileStorage.FileStorage']
+
+from zverif import battery as B  # noqa: E402
 from zverif import templates as T
 from zverif.api import assume, check, fail, reached, untraced, choose, realize, note, decide, traced
 from zverif.spec import Harness, shards
@@ -124,6 +126,65 @@ def h_fault(f: int, short: int, use_short: bool, template: str, nrec: int) -> No
         s.tpc_abort(t)
         _state(env, s, h.m, pre, 'abort following an I/O error' if fired else 'abort after vote')
         _follow_up(env, s, h)
+    reached()
+
+
+def h_copy_fault(f: int, template: str) -> None:
+    """copyTransactionsFrom() drives a two-phase commit per copied transaction.  The f-th low-level operation on the
+    destination fails: the destination is left outside any transaction with a free commit lock, holds exactly the
+    transactions copied completely before, accepts the next commit, and reopens to that."""
+    assume(f >= 0)
+    with untraced():
+        env, src, hs = T.build_file(template)
+        dst = F.FileStorage('/db/Dest.fs')
+        fs = env.fs
+    fs.fail_at = fs.nops + f
+    with untraced():
+        failed = None
+        phase = {}
+        real_finish = dst.tpc_finish
+
+        def finish(*a, **k):
+            phase['finish'] = True
+            r = real_finish(*a, **k)
+            phase['finish'] = False
+            return r
+        dst.tpc_finish = finish
+        try:
+            dst.copyTransactionsFrom(src)
+        except OSError as ex:
+            failed = ex
+        del dst.tpc_finish
+        fired = bool(fs.fault_log)
+        fs.fail_at = None
+        assume(fired and failed is not None)
+        assume(not phase.get('finish'))       # a failure inside tpc_finish itself: C01 finish_fault
+        note('fired', fs.fault_log[-1][1] + ':' + fs.fault_log[-1][2].split('/')[-1])
+        check(dst.tpc_transaction() is None, 'destination left inside the copied transaction after a failed copy')
+        for L in _locks(dst):
+            if not _lock_free(L):
+                fail('commit lock of the destination left held after a failed copy')
+        it = dst.iterator()
+        got = [t_.tid for t_ in it]
+        it.close()
+        want = [t_.tid for t_ in hs.m.txns]
+        check(got == want[:len(got)], 'destination holds something else than a prefix of the source after a failed copy')
+        from zverif.model.revstore import RevStore
+        pm = RevStore(hs.m.txns[:len(got)])
+        B.full_battery(dst, pm)
+        h2 = T.Hist(dst, pm.copy())
+        for o in pm.oids():
+            try:
+                h2.serial[o] = pm.load(o)[1]
+            except Exception:
+                h2.serial[o] = pm.revs(o)[-1][0]
+        h2.commit([(T.oid(77), b'after the failed copy')], b'next', b'txn')
+        B.full_battery(dst, h2.m)
+        dst.close()
+        d2 = F.FileStorage('/db/Dest.fs')
+        B.full_battery(d2, h2.m)
+        d2.close()
+        src.close()
     reached()
 
 
@@ -470,6 +531,12 @@ HARNESSES = [
             oracle='RevStore', code=['FileStorage._abort (FilePool.flush)', 'FilePool.get/empty/write_lock', 'FileStorage.load'],
             quick=dict(timeout=100, shards=shards(template=['T1'])),
             thorough=dict(timeout=300, shards=shards(template=['T1', 'T2']))),
+    Harness('copy_fault', h_copy_fault,
+            decides='an I/O error at any low-level operation of copyTransactionsFrom on the destination: the destination ends outside any '
+                    'transaction with a free commit lock, holds exactly the completely copied prefix, accepts the next commit and reopens to it',
+            symbolic='f = index of the failing operation over the whole copy', bounds='source template T1 (4 transactions); destination FileStorage',
+            oracle='RevStore prefix + battery', code=['BaseStorage.copy', 'FileStorage.restore/tpc_vote/tpc_finish/_abort'],
+            quick=dict(timeout=100, shards=shards(template=['T1'])), thorough=dict(timeout=300, shards=shards(template=['T1', 'T4']))),
     Harness('abort_phase', h_abort_phase,
             decides='abort after begin / stores / conflict / vote / foreign abort / a failing tpc_finish callback leaves the pre-transaction state and a free lock',
             symbolic='phase selector (0..5)', bounds='history T1 (+ one demo change)', oracle='pre-state bytes + RevStore battery',
